@@ -10,7 +10,7 @@ from sa.checks.ibl_rules import build_model, c01_rules
 from sa.guards import GuardWalk, is_opaque
 from sa.kern import make_evaluator, py_calls
 from sa.report import Ctx
-from sa.srcmodel import FuncInfo, func_body, inline_locals
+from sa.srcmodel import desugared, FuncInfo, func_body, inline_locals
 from sa.symterm import (Env, Poly, Unsupported, all_atoms, ite, show,
                         show_cond)
 
@@ -76,7 +76,7 @@ def run(ctx: Ctx) -> None:
 def _constructor_accepts(ctx: Ctx) -> dict[str, Any]:
     """The conditions under which Instance.__new__ accepts an item."""
     repo = ctx.repo
-    new = repo.func(INST, "Instance.__new__")
+    new = desugared(repo.func(INST, "Instance.__new__"))
     ev = make_evaluator(repo, new, extra_call=py_calls)
     ev.int_transparent = True
     gw = GuardWalk(ev)
@@ -113,7 +113,10 @@ def _constructor_accepts(ctx: Ctx) -> dict[str, Any]:
                 ok_b = False
             if lo_ != 1:
                 ok_b = False
-    ok_b = ok_b and all(v == mx for v in hi_terms.values())
+    from sa.casesplit import equivalent as _equiv, minmax_to_ite as _mm
+    ok_b = ok_b and all(
+        v == mx or _equiv(_mm(v), _mm(mx), integer=True)[0]
+        for v in hi_terms.values())
     ctx.ob("D1.1", new, new.node, ok_b,
            "the constructor requires 1 <= width, height <= max(bin_width, "
            "bin_height)" if ok_b else
@@ -128,6 +131,15 @@ def _constructor_accepts(ctx: Ctx) -> dict[str, Any]:
                       and Poly.atom(a) not in (W, H)]
             if mn.as_atom() in ats and len(others) == 2:
                 rej = e
+            elif len(others) == 2 and rej is None:
+                # by value: raised iff both dimensions exceed min(W, H)
+                w_, h_ = (Poly.atom(a) for a in others)
+                ref = ("and", ("lt", mn, w_), ("lt", mn, h_))
+                try:
+                    if _equiv(_mm(e.cond), _mm(ref), integer=True)[0]:
+                        rej = e
+                except Unsupported:
+                    pass
     ctx.ob("D1.1", new, rej.node if rej else new.node, rej is not None,
            f"items are rejected when [{show_cond(rej.cond)}]" if rej else
            "no rejection of items that exceed min(bin_width, bin_height) "
@@ -198,7 +210,7 @@ def _dtype(ctx: Ctx) -> None:
     one argument >= (the sum of the multiplicities)."""
     from sa.checks.c03 import _ConstructorModel
     repo = ctx.repo
-    new = repo.func(INST, "Instance.__new__")
+    new = desugared(repo.func(INST, "Instance.__new__"))
     call = None
     for n in ast.walk(new.node):
         if isinstance(n, ast.Call) and isinstance(n.func, ast.Name) and \
@@ -211,10 +223,18 @@ def _dtype(ctx: Ctx) -> None:
     cm = _ConstructorModel(ctx, new)
     p = new.params
     try:
+        from fractions import Fraction
+        from sa.casesplit import equivalent as _eqv, minmax_to_ite as _mmi
         mx = cm.ev.num(cm.out, kws["max_value"])
-        a = mx.as_atom()
-        args = list(a[2]) if a is not None and a[0] == "app" and \
-            a[1] == "max" else [mx]
+        # c0 + max(args) covers max(arg + c0)
+        c0 = mx.terms.get((), Fraction(0))
+        a = (mx - Poly.const(c0)).as_atom()
+        if a is not None and a[0] == "app" and a[1] == "max" and c0 >= 0:
+            args = [x + Poly.const(c0) for x in a[2]]
+        else:
+            a = mx.as_atom()
+            args = list(a[2]) if a is not None and a[0] == "app" and \
+                a[1] == "max" else [mx]
         Wv, Hv = Poly.var(p[2]), Poly.var(p[3])
         md = Poly.atom(("app", "max", tuple(sorted(
             {Wv, Hv}, key=lambda q: repr(q.key())))))
@@ -238,10 +258,18 @@ def _dtype(ctx: Ctx) -> None:
                          and len(x.as_atom()[2]) == 1}
                 if {0, 1} <= {int(c) for c in cells if c is not None}:
                     size_vars.append(mk.name)
+        if not size_vars:
+            size_vars = _running_max_vars(ctx, new, cm)
         ms = cm.post_symbol(size_vars[0]) if len(size_vars) == 1 else None
-        has_dim = ms is not None and any(
-            (arg - md - ms).const_value() is not None and (
-                arg - md - ms).const_value() >= 0 for arg in args)
+
+        def covers_dim(arg: Poly) -> bool:
+            d_ = arg - md - ms
+            if d_.const_value() is not None:
+                return d_.const_value() >= 0
+            # max(W, H) written as a conditional
+            return any(_eqv(_mmi(arg - ms), _mmi(md + Poly.const(k_)),
+                            integer=True)[0] for k_ in (0, 1, 2))
+        has_dim = ms is not None and any(covers_dim(arg) for arg in args)
         has_n = ni is not None and any(
             (arg - ni).const_value() is not None and (
                 arg - ni).const_value() >= 0 for arg in args)
@@ -265,6 +293,65 @@ def _dtype(ctx: Ctx) -> None:
     ctx.ob("D1.6", pk, pk.node, okp,
            "Packing is allocated with instance.dtype",
            construct="packing uses instance dtype", nontrivial=False)
+
+
+def _running_max_vars(ctx: Ctx, new: FuncInfo, cm: Any) -> list[str]:
+    """Loop variables of the row loop that are, on every path through one
+    round that does not raise, max(previous value, width, height) of the
+    row - whether written with max() or with conditional updates."""
+    from sa.casesplit import equivalent, minmax_to_ite
+    from sa.pathinline import paths
+    from sa.symterm import c_and, c_not, ite
+    repo = ctx.repo
+    mat = new.params[4]
+    loops = [lp for lp in func_body(new) if isinstance(lp, ast.For)
+             and isinstance(lp.target, ast.Name)]
+    out: list[str] = []
+    for lp in loops[:1]:
+        try:
+            ps = [p_ for p_ in paths(list(lp.body)) if p_.ended != "raise"]
+        except ValueError:
+            continue
+        ev = make_evaluator(repo, new, extra_call=py_calls)
+        ev.int_transparent = True
+        ev.compose_rows = True
+        i = Poly.var(lp.target.id)
+        w_ = Poly.atom(("cell", mat, (i, Poly.const(0))))
+        h_ = Poly.atom(("cell", mat, (i, Poly.const(1))))
+        stored = sorted({n.id for n in ast.walk(lp) if isinstance(
+            n, ast.Name) and isinstance(n.ctx, ast.Store)})
+        for v in stored:
+            M0 = Poly.var(v + "$0")
+            ref = minmax_to_ite(Poly.atom(("app", "max", (M0, w_, h_))))
+            good = bool(ps)
+            if not any(v in p_.env for p_ in ps):
+                continue
+            for p_ in ps:
+                env = Env()
+                env.vars[v] = M0
+                env.vars[lp.target.id] = i
+                env.vars[mat] = ("array", mat)
+                try:
+                    fin = ev.num(env, p_.env[v]) if v in p_.env else M0
+                    conds = []
+                    for t, truth in p_.guards:
+                        try:
+                            c = ev.cond(env, t)
+                        except Unsupported:
+                            continue      # an opaque guard (type tests)
+                        conds.append(c if truth else c_not(c))
+                    c_all = c_and(*conds) if conds else ("true",)
+                    same = equivalent(
+                        minmax_to_ite(ite(c_all, fin, ref)), ref,
+                        integer=True)[0]
+                except Unsupported:
+                    same = False
+                if not same:
+                    good = False
+                    break
+            if good:
+                out.append(v)
+    return out
 
 
 # ------------------------------------------------------------------ D1.7
